@@ -202,6 +202,19 @@ def slice_base(F, node, view_adt, depth=0):
     return (is_buffer_root(n, view_adt), [])
 
 
+def _drop_partial_defs(n):
+    """a store through an index (`data[i] = x`) is a partial definition of the slice place; it cannot
+    change the slice's length, so for the bounds-check's `len` operand those alternatives are dropped"""
+    if n[0] == 'phi':
+        alts_ = tuple(_drop_partial_defs(a) for a in n[1] if a != ('opaque', 'partial-def'))
+        if len(alts_) == 1:
+            return alts_[0]
+        return ('phi', alts_) if alts_ else n
+    if n[0] in ('ref', 'deref') and len(n) == 2:
+        return (n[0], _drop_partial_defs(n[1]))
+    return n
+
+
 def buffer_accesses(F, body, view_adt):
     """accesses to the view's byte buffer in body: list of dict(kind, need (origin node of the minimal
     buffer length required), const (int or None), bb, line, what)"""
@@ -212,7 +225,7 @@ def buffer_accesses(F, body, view_adt):
         if syn not in INDEX_CALLS or len(args) != 2:
             continue
         si = len(body.blocks[bi]['s'])
-        base = og.operand(body, args[0], bi, si)
+        base = _drop_partial_defs(og.operand(body, args[0], bi, si))
         isbuf, offs = slice_base(F, base, view_adt)
         if not isbuf:
             continue
@@ -251,6 +264,8 @@ def buffer_accesses(F, body, view_adt):
             lenop = og.operand(body, t[3]['len'], bi, si)
             ln_ = strip(lenop)
             base = ln_[1] if ln_[0] == 'len' else None
+            if base is not None:
+                base = _drop_partial_defs(base)
             if base is None:
                 continue
             isbuf, offs = slice_base(F, base, view_adt)
